@@ -185,7 +185,7 @@ def jHOp (j : Json) : Except String HOp := do
   let j := dropMeta j
   match ← jArr j with
   | .str "q" :: _ => pure (.ask (← jQuery j))
-  | [.str "fork"] => pure .fork
+  | .str "fork" :: _ => pure .fork  -- ["fork"] = copy.deepcopy, ["fork", "pickle"] = pickle round trip
   | _ => pure (.edit (← jMut j) (← givenOf j))
 
 def errClass : Err → Json
